@@ -15,7 +15,7 @@ import kani as kani_engine  # noqa: E402
 from common import (EVIDENCE, EXIT_INCONCLUSIVE, EXIT_OK, EXIT_VIOLATION, REPO, VERIF,  # noqa: E402
                     load_known_findings, log, run)
 
-REPLAYS = os.path.join(VERIF, "replays")
+REPLAYS = os.environ.get("VERIF_REPLAY_DIR") or os.path.join(VERIF, "replays")
 
 
 class Outcome:
